@@ -51,7 +51,7 @@ for p in props:
         "property_id": pid,
         "quick_cmd": f"python3-vt checks/check.py {pid} --tier quick",
         "thorough_cmd": f"python3-vt checks/check.py {pid} --tier thorough",
-        "evidence_file": f"evidence/{pid}.json",
+        "evidence_file": f"/verif/evidence/{pid}.json",
         "replay_cmd_template": f"python3-vt checks/check.py {pid} --replay {{path}}",
         "engine": c["engine"],
         "level_claimed": {"category": c["category"], "text": c["text"], "design_ref": c["design_ref"]},
